@@ -489,7 +489,7 @@ class Follow(Policy):
         return t if t != k else Policy.forced(self, sim, k)
 
 
-def make_policy(rng, n_threads: int, horizon: int) -> Policy:
+def make_policy(rng, n_threads: int, horizon: int, granularity: str = "line") -> Policy:
     kind = rng.choice(["uniform", "uniform", "pct", "pct", "rr", "serial"])
     if n_threads == 1:
         return Serial()
@@ -499,7 +499,8 @@ def make_policy(rng, n_threads: int, horizon: int) -> Policy:
     if kind == "pct":
         return PCT(rng, n_threads, rng.choice([1, 2, 3, 4]), horizon, rng.random() < 0.5)
     if kind == "rr":
-        return RoundRobin(rng, rng.choice([1, 7, 97, 1009]))
+        quanta = [1, 7, 97, 1009] if granularity == "line" else [7, 97, 1009, 10007]
+        return RoundRobin(rng, rng.choice(quanta))
     return Serial()
 
 
@@ -766,7 +767,7 @@ def run_schedule_task(task: dict) -> dict:
             policy: Policy = Follow(task["schedule"])
         else:
             rng = rng_for(*task["seed_parts"], "policy")
-            policy = make_policy(rng, len(threads), task.get("horizon", 20000))
+            policy = make_policy(rng, len(threads), task.get("horizon", 20000), task.get("granularity", "line"))
         sim = ScheduleSim(threads, policy, _MARKS, task.get("cap", 5_000_000), scratch,
                           task.get("granularity", "line"))
         t0 = time.monotonic()
